@@ -69,8 +69,9 @@ def run(tier, seed, replay=None):
         component="create_node / deciders", kind=lambda c: c["decider"][0], chunk=40, coq_regions=("F38",))
     # the programs handed out by every representation after create / map / mutate / crossover (incl. the stack representation)
     from harness.props import c06, rep_common as rc
-    rcases = [replay["replay"]["case_full"]] if rep_replay else [] if replay else rc.gen_variation_cases(flow.rng(seed, "c01r"), tier)
+    rcases = [replay["replay"]["case_full"]] if rep_replay else [] if replay else rc.gen_variation_cases(flow.rng(seed, "c01r"), tier) + rc.gen_stack_cases(flow.rng(seed, "c01s"), tier)
     ph = c06.rep_phase(chk, "C01", "run_c01r", ("F03",), rcases, component="programs returned by the representations") if rcases else None
+    n_sm, n_def = c06.stack_phase(chk, "C01", ph["ecs"], ph["eos"], rcases) if ph else (0, 0)
     if rep_replay and ph:
         print("replayed", len(ph["ecs"]), "operations: correspondence", "FAILS" if ph["corr"] else "ok", "| contract", "FAILS" if ph["orac"] else "holds")
     if replay and outs:
@@ -96,7 +97,8 @@ def run(tier, seed, replay=None):
                 forms[t[0]] = forms.get(t[0], 0) + 1
     cov = {
         "representation_operations": ({"operations": ph["operations"], "errors": ph["errors"], "known_region_hits": ph["hits"],
-                                       "correspondence_mismatches": len(ph["corr"]), "oracle_failures": len(ph["orac"])} if ph else None),
+                                       "correspondence_mismatches": len(ph["corr"]), "oracle_failures": len(ph["orac"]),
+                                       "stack_mappings_compared_with_the_model": n_sm, "of_which_with_a_definite_model_answer": n_def} if ph else None),
         "evaluations": len(cases) + (len(ph["ecs"]) if ph else 0),
         "distinct_nontrivial": flow.distinct_nontrivial(cases, outs or [], nontrivial) if outs else 0,
         "traces_validated_against_impl": len(cases),
